@@ -162,6 +162,15 @@ def run(ctx):
 
         def idv(b):
             return 0 if b == zb else 1000 + b
+        if stats["E"] % 3 == 2:
+            # EncodeLayout is a function of the cell's fields as they are NOW: the same cell object is first encoded with other
+            # fields present (a document is saved, the cell re-formatted, the document saved again), then changed in place
+            other = [b for b in ATTR if b not in bits_of(optmask)][: 1 + stats["E"] % 4] + [b for b in bits_of(optmask) if b in ATTR][:1]
+            for b in other:
+                setattr(cell, ATTR[b], 5000 + b)
+            cell._to_buffer()
+            for b in other:
+                setattr(cell, ATTR[b], None)
         for b in bits_of(optmask):
             setattr(cell, ATTR[b], idv(b))
         buf = cell._to_buffer()
